@@ -1,6 +1,9 @@
 (** Extraction roots of the history models (driver: extract/drv_hist.ml):
     Hist/BlockState.v (C19) and Hist/Reuse.v (C18). *)
-From SP Require Hist.BlockState.
+From SP Require Hist.BlockState Hist.Reuse.
 Definition roots := (Hist.BlockState.step, Hist.BlockState.trace, Hist.BlockState.run,
                      Hist.BlockState.declared_writes, Hist.BlockState.prev_pure,
-                     Hist.BlockState.vpt_pure, Hist.BlockState.simple_pure, Hist.BlockState.columns).
+                     Hist.BlockState.vpt_pure, Hist.BlockState.simple_pure, Hist.BlockState.columns,
+                     Hist.Reuse.build, Hist.Reuse.run, Hist.Reuse.init_state, Hist.Reuse.store_list,
+                     Hist.Reuse.shared_summary, Hist.Reuse.fresh_summary, Hist.Reuse.keep_of, Hist.Reuse.mask,
+                     Hist.Reuse.closed, Hist.Reuse.wf, Hist.Reuse.declared_writes).
